@@ -115,6 +115,47 @@ theorem C19_table_invariants (sort1 sort2 : List Item → List Item) (h1 : IsSor
   · exact Or.inl h'
   · exact Or.inr h'
 
+/-! ### `IPTable.Update` histories -/
+
+/-- **`Update` replaces**: after any history of `Update` calls (any previous tables, nil included, any version strings —
+    equal, different or empty), the table in service is exactly the `IPItems` of the last call. -/
+theorem C19_update_replaces (t0 : IPTableM) (hist : List (Option IPItemsM)) (x : Option IPItemsM) :
+    t0.updates (hist ++ [x]) = x := by
+  unfold IPTableM.updates
+  rw [List.foldl_append]
+  rfl
+
+/-- Consequently `Search` and `Version` after `…; Update(X)` are those of `X`, independent of everything before. -/
+theorem C19_update_forgets (t0 t1 : IPTableM) (h0 h1 : List (Option IPItemsM)) (x : Option IPItemsM) (ip : Option Nat) :
+    (t0.updates (h0 ++ [x])).search ip = (t1.updates (h1 ++ [x])).search ip ∧
+    (t0.updates (h0 ++ [x])).version = (t1.updates (h1 ++ [x])).version := by
+  rw [C19_update_replaces, C19_update_replaces]; exact ⟨rfl, rfl⟩
+
+/-- **Exact membership after an update history**: whatever was loaded before, after `Update(X)` with `X` built from the
+    accepted `ranges` and `singles` (any version string), `Search(ip)` is true exactly when `ip` is one of X's single
+    addresses or lies in one of X's ranges. -/
+theorem C19_update_exact (sort1 sort2 : List Item → List Item) (h1 : IsSort sort1) (h2 : IsSort sort2)
+    (t0 : IPTableM) (hist : List (Option IPItemsM)) (ranges : List Item) (singles : List Nat) (ver : String)
+    (ip : Nat) (hv : Valid ranges) :
+    (t0.updates (hist ++ [some ⟨singles.map encIP, sortTable sort1 sort2 (ranges.map encRange), ver⟩])).search
+        (some (encIP ip)) = true ↔ ip ∈ singles ∨ InUnion ranges ip := by
+  rw [C19_update_replaces]
+  exact C19_exact sort1 sort2 h1 h2 ranges singles ip hv
+
+/-- after `Update(nil)` nothing is reported and the version is empty; an address without a 16-byte form is never reported -/
+theorem C19_update_nil (t0 : IPTableM) (hist : List (Option IPItemsM)) (ip : Option Nat) :
+    (t0.updates (hist ++ [none])).search ip = false ∧ (t0.updates (hist ++ [none])).version = "" ∧
+    ∀ t : IPTableM, t.search none = false := by
+  rw [C19_update_replaces]
+  refine ⟨rfl, rfl, fun t => ?_⟩
+  cases t <;> rfl
+
+/-- the reload gate of `txt_load.CheckAndLoad`: a file is skipped exactly when its version is non-empty and equal to
+    the version in service (a file without version is always reloaded) -/
+theorem C19_reload_gate (cur new : String) : needLoad cur new = false ↔ (new = cur ∧ new ≠ "") := by
+  unfold needLoad
+  simp
+
 /-- The list-traversal `mergeItems` used above computes exactly what the index-based, in-place array loops of
     `mergeItems`/`checkMerge` compute (`mergeItemsA`: `for i`, `for j`, `for k` with `items[i] = …` updates),
     for every array — so all theorems here are theorems about the array version. -/
@@ -153,6 +194,8 @@ theorem C19_former_witness_v4zero_end_ipv4 :
 
 /-! Non-vacuity: nested, chained, duplicate, touching ranges and a range `::–::` satisfy the hypothesis, and the
     answer on them is the non-trivial one (several input ranges collapse into one entry, `::–::` is kept). -/
+example : (IPTableM.updates none [some ⟨[], [(1, 2)], "1"⟩, some ⟨[], [(5, 6)], "1"⟩]).search (some 5) = true ∧
+    (IPTableM.updates none [some ⟨[], [(1, 2)], "1"⟩, some ⟨[], [(5, 6)], "1"⟩]).search (some 1) = false := by decide
 example : Valid [(10, 20), (15, 30), (12, 13), (30, 31), (40, 41), (10, 20), (0, 0)] := by decide
 example : sortTable goSort goSort ([(10, 20), (15, 30), (12, 13), (30, 31), (40, 41), (10, 20), (0, 0)].map encRange) =
     [encRange (40, 41), encRange (10, 31), encRange (0, 0)] := by decide
